@@ -351,3 +351,36 @@ def run(ctx):
     except KeyError as e_:
         ctx.ob('PAD-AGREE', 'psf_memdup', False, md.loc(al[0]), 'allocation size expression uses a construct the evaluator does not model (%s)' % e_, None)
 
+
+    ctx.rule('ITER-RESET', 'the per-handle chunk iterator object (psf->iterator) is handed out by psf_get_chunk_iterator again and again: every field that psf_next_chunk_iterator reads '
+             '(iterator->hash, iterator->current ...) is assigned on every path to `return psf->iterator` (or the whole object is cleared / freshly calloc\'ed on that path): a search '
+             'by id that was not run to its end must not leave its hash behind, or the next full iteration visits only the chunks with that id', floor=2)
+    gi = prog.fn('psf_get_chunk_iterator', 'chunk.c')
+    ni = prog.fn('psf_next_chunk_iterator', 'chunk.c')
+    it_par = ni.params[1]['n']
+    read_fields = sorted({n['n'] for n in ni.walk() if n['k'] == 'MemberExpr' and ni.s(ni.unwrap(ni.N[n['kids'][0]])) == it_par})
+    ctx.require(len(read_fields) >= 2, 'psf_next_chunk_iterator reads %s of the iterator' % read_fields)
+    rets = [n for n in gi.walk() if n['k'] == 'ReturnStmt' and n.get('kids') and gi.s(gi.unwrap(gi.N[n['kids'][0]])) == 'psf->iterator']
+    ctx.require(rets, 'psf_get_chunk_iterator no longer returns psf->iterator')
+    from engine.util import assigned_lvalues as _al13
+    whole = [c for c in gi.calls() if c.get('callee') == 'memset' and gi.s(gi.unwrap(gi.args(c)[0])) == 'psf->iterator']
+    for fld in read_fields:
+        sets_ = [a for lv, a, r in _al13(gi) if lv == 'psf->iterator->%s' % fld]
+        fresh = [a for lv, a, r in _al13(gi) if lv == 'psf->iterator' and r is not None and any(c.get('callee') == 'calloc' for c in gi.calls(root=r))]
+        avoid = set()
+        for x in sets_ + whole:
+            p_ = gi.cfg.point(x)
+            if p_ is not None:
+                avoid.add(p_)
+        # a fresh calloc counts only if nothing but that path reaches the return: handled by treating it as a setter too
+        for x in fresh:
+            p_ = gi.cfg.point(x)
+            if p_ is not None:
+                avoid.add(p_)
+        # paths that leave through another return (NULL) do not hand the object out
+        for r_ in gi.walk():
+            if r_['k'] == 'ReturnStmt' and r_ not in rets and gi.cfg.point(r_) is not None:
+                avoid.add(gi.cfg.point(r_))
+        w = gi.cfg.path_avoiding((gi.cfg.entry, -1), {gi.cfg.exit}, avoid)
+        ctx.ob('ITER-RESET', 'psf_get_chunk_iterator:%s' % fld, w is None, gi.loc(rets[0]), 'iterator->%s is %s' % (fld, 'assigned (or the object cleared / fresh) on every path to the return' if w is None else
+               'NOT assigned on a path to `return psf->iterator` (blocks %s): the value of the previous search survives - after an unfinished search by id a full iteration only visits chunks with that id' % w[:8]), None)
